@@ -146,4 +146,18 @@ def P_C19_race (n : Nat) (round : List (Nat × List (Bool × List Reply))) : Ver
     else if nSucc == 1 && nIdErr + 1 == n then none
     else some "race-outcome-not-sequential")
 
+/-- many clients between `Start` and `End` at the same time, each going through the canonical
+    sequence: at every step ALL n clients get that step's success replies (the table holds
+    any number of clients; nobody is dropped before `End`).  Observation per step: the
+    distinct outcomes with (count, first client index, closed, replies), the client's own id
+    printed as "@cid". -/
+def P_C19_many (n : Nat) (steps : List (Nat × List (Nat × Nat × Bool × List Reply))) : Verdict :=
+  if steps.length != 13 then some "many-observation-incomplete" else
+  firstSome (steps.map fun (pos, groups) =>
+    match groups with
+    | [(cnt, _, closed, replies)] =>
+      if cnt == n && !closed && replyListEq replies (successRepliesAt pos "@cid") then none
+      else some "client-in-flight-rejected"
+    | _ => some "client-in-flight-rejected")
+
 end VV
